@@ -47,34 +47,34 @@ type Verdict struct {
 }
 
 type Failure struct {
-	Case    Case            `json:"case"`
-	Judge   string          `json:"judge"`
-	Agree   bool            `json:"agree"`
-	Model   json.RawMessage `json:"model,omitempty"`
-	Error   string          `json:"error,omitempty"`
+	Case     Case              `json:"case"`
+	Judge    string            `json:"judge"`
+	Agree    bool              `json:"agree"`
+	Model    json.RawMessage   `json:"model,omitempty"`
+	Error    string            `json:"error,omitempty"`
 	Readable map[string]string `json:"readable,omitempty"`
 }
 
 type Summary struct {
-	Stream            string         `json:"stream"`
-	Tier              string         `json:"tier"`
-	Seed              int64          `json:"seed"`
-	Evaluations       int            `json:"evaluations"`
-	DistinctInputs    int            `json:"distinct_inputs"`
-	DistinctNontrivial int           `json:"distinct_nontrivial"`
-	Agreements        int            `json:"agreements"`
-	Disagreements     []Failure      `json:"disagreements"`
-	JudgeFailures     []Failure      `json:"judge_failures"`
-	DriverErrors      []Failure      `json:"driver_errors"`
-	NDisagreements    int            `json:"n_disagreements"`
-	NJudgeFailures    int            `json:"n_judge_failures"`
-	Tags              map[string]int `json:"tags"`
-	Ops               map[string]int `json:"ops"`
-	ObsKinds          map[string]int `json:"obs_kinds"`
-	Samples           []Case         `json:"samples"`
-	Skipped           map[string]int `json:"skipped,omitempty"`
-	WallS             float64        `json:"wall_s"`
-	Notes             []string       `json:"notes,omitempty"`
+	Stream             string         `json:"stream"`
+	Tier               string         `json:"tier"`
+	Seed               int64          `json:"seed"`
+	Evaluations        int            `json:"evaluations"`
+	DistinctInputs     int            `json:"distinct_inputs"`
+	DistinctNontrivial int            `json:"distinct_nontrivial"`
+	Agreements         int            `json:"agreements"`
+	Disagreements      []Failure      `json:"disagreements"`
+	JudgeFailures      []Failure      `json:"judge_failures"`
+	DriverErrors       []Failure      `json:"driver_errors"`
+	NDisagreements     int            `json:"n_disagreements"`
+	NJudgeFailures     int            `json:"n_judge_failures"`
+	Tags               map[string]int `json:"tags"`
+	Ops                map[string]int `json:"ops"`
+	ObsKinds           map[string]int `json:"obs_kinds"`
+	Samples            []Case         `json:"samples"`
+	Skipped            map[string]int `json:"skipped,omitempty"`
+	WallS              float64        `json:"wall_s"`
+	Notes              []string       `json:"notes,omitempty"`
 }
 
 var skipped = map[string]int{}
